@@ -48,6 +48,8 @@ def key_shape(spec):
         return key_shape(v)
     if k == 'newtype_struct':
         return key_shape(v[1])
+    if k == 'hr':
+        return key_shape(v[0])
     raise Unsupp('key kind ' + k)
 
 
@@ -119,6 +121,9 @@ def shape(spec):
         return TS(v[0], v[1], v[2])
     if k == 'json':
         return json_shape(v)
+    if k == 'hr':
+        # CEL values are a human-readable format in the sense of serde (as serde_json is): the readable form
+        return shape(v[0])
     raise ValueError(k)
 
 
@@ -153,6 +158,8 @@ def json_representable(spec):
         return False
     if k == 'some':
         return json_representable(v)
+    if k == 'hr':
+        return json_representable(v[0])
     if k == 'newtype_struct':
         return json_representable(v[1])
     if k == 'newtype_variant':
@@ -271,10 +278,15 @@ class SpecGen:
         if d <= 0 or rng.random() < 0.3:
             return self.scalar()
         k = rng.choice(['some', 'newtype_struct', 'newtype_variant', 'seq', 'seq', 'tuple', 'tuple_struct', 'tuple_variant',
-                        'map', 'map', 'struct', 'struct', 'struct_variant'])
+                        'map', 'map', 'struct', 'struct', 'struct_variant', 'hr'])
         n = rng.randint(0, 3)
         if k == 'some':
             return {"k": k, "v": self.gen(d - 1)}
+        if k == 'hr':
+            # readable form: a string (or anything); compact form: a tuple / variant / bytes
+            return {"k": k, "v": [self.gen(d - 1) if rng.random() < 0.5 else self.of_kind('str'),
+                                  rng.choice([{"k": "tuple", "v": [self.of_kind('u8') for _ in range(4)]}, self.of_kind('bytes'),
+                                              {"k": "newtype_variant", "v": [0, "V4", {"k": "tuple", "v": [self.of_kind('u8')]}]}, self.of_kind('u64')])]}
         if k == 'newtype_struct':
             return {"k": k, "v": ["N", self.gen(d - 1)]}
         if k == 'newtype_variant':
@@ -310,6 +322,8 @@ def spec_depth(s):
     k, v = s["k"], s.get("v")
     if k == 'some':
         return 1 + spec_depth(v)
+    if k == 'hr':
+        return 1 + spec_depth(v[0])
     if k == 'newtype_struct':
         return 1 + spec_depth(v[1])
     if k == 'newtype_variant':
@@ -411,6 +425,22 @@ def run_unit(unit, drv, res, seed, tier):
                 specs.append({"k": "map", "v": [[{"k": k, "v": v}, {"k": "str", "v": "val"}]]})
         for _ in range(400):
             specs.append({"k": "map", "v": [[g.key(), g.scalar()]], "entry": rng.random() < 0.5})
+        # maps whose keys denote the same number / text under different key kinds: all are distinct keys
+        import itertools as _it
+        twins = [{"k": "i64", "v": 1}, {"k": "u64", "v": 1}, {"k": "str", "v": "1"}, {"k": "bool", "v": True}, {"k": "str", "v": "true"},
+                 {"k": "char", "v": "1"}, {"k": "i8", "v": -1}, {"k": "u8", "v": 255}, {"k": "i64", "v": 0}, {"k": "u64", "v": 0},
+                 {"k": "u8", "v": 1}, {"k": "i32", "v": 1}, {"k": "unit_variant", "v": [0, "1"]}, {"k": "u64", "v": 2}, {"k": "i16", "v": 2}]
+        for n in (2, 3):
+            for ks in _it.permutations(twins, n):
+                if n == 3 and rng.random() < 0.9:
+                    continue
+                specs.append({"k": "map", "v": [[kk, {"k": "str", "v": "v%d" % i}] for i, kk in enumerate(ks)], "entry": rng.random() < 0.5})
+        specs.append({"k": "map", "v": [[kk, {"k": "i64", "v": i}] for i, kk in enumerate(twins)]})
+        for _ in range(60):
+            specs.append({"k": "hr", "v": [g.of_kind('str'), {"k": "tuple", "v": [g.of_kind('u8') for _ in range(4)]}]})
+            specs.append({"k": "seq", "v": [{"k": "hr", "v": [g.of_kind('str'), g.of_kind('bytes')]}]})
+            specs.append({"k": "map", "v": [[{"k": "hr", "v": [g.of_kind('str'), g.of_kind('u64')]}, g.scalar()]]})
+            specs.append({"k": "struct", "v": [["addr", {"k": "hr", "v": [g.of_kind('str'), {"k": "newtype_variant", "v": [0, "V4", g.of_kind('u32')]}]}]]})
         res.exhaustive_done['every-serializer-method'] = True
     else:
         for _ in range(1500):
